@@ -15,7 +15,7 @@ CONSTANTS Tier,          \* "quick" | "thorough"
           OutFile, BaseFile, StepBound
 
 \* ---- tokens are written as strings in the grammar and mapped to values here
-Special == ("65536" :> IntN(65536)) @@ ("65537" :> IntN(65537)) @@ ("1000" :> IntN(1000)) @@ ("/f" :> NameV("f"))
+Special == ("65536" :> IntN(65536)) @@ ("65537" :> IntN(65537)) @@ ("1000" :> IntN(1000)) @@ ("/f" :> NameV("f")) @@ ("/g" :> NameV("g"))
            @@ ("0" :> IntN(0)) @@ ("1" :> IntN(1)) @@ ("2" :> IntN(2)) @@ ("3" :> IntN(3)) @@ ("5" :> IntN(5))
            @@ ("6" :> IntN(6)) @@ ("7" :> IntN(7)) @@ ("9" :> IntN(9)) @@ ("-1" :> IntN(-1))
            @@ ("/x" :> NameV("x")) @@ ("/p" :> NameV("p")) @@ ("/add" :> NameV("add")) @@ ("/y" :> NameV("y"))
@@ -111,6 +111,9 @@ LimitShapes == {
     <<"/f", "{", "true", "{", "f", "}", "if", "1", "}", "def", "f">>,    \* recursion through if
     <<"/f", "{", "1", "{", "f", "}", "repeat", "1", "}", "def", "f">>,   \* recursion through repeat
     <<"/f", "{", "/f", "load", "exec", "1", "}", "def", "f">>,          \* recursion through load exec
+    <<"/f", "{", "g", "1", "pop", "}", "def", "/g", "{", "f", "}", "0", "get", "def", "f">>,   \* through a name whose value is an executable name
+    <<"/f", "{", "g", "1", "}", "def", "/g", "{", "f", "2", "}", "def", "f">>,                 \* two procedures calling each other
+    <<"/f", "{", "x", "}", "def", "/x", "{", "f", "1", "}", "def", "/g", "{", "x", "}", "0", "get", "def", "g">>,
     <<"{", "currentdict", "begin", "}", "loop">>,                        \* begin in a loop
     <<"{", "1", "}", "loop">>,                                            \* loop that pushes
     <<"1", "{", "dup", "}", "loop">>,
